@@ -507,6 +507,11 @@ func check(id, tier string) int {
 		os.MkdirAll(filepath.Dir(rp), 0755)
 		margs := []string{"-mode", "minimise", "-in", v.path, "-out", rp, "-budget", fmt.Sprintf("%ds", minBudget), "-sites", v.scratch + "/sites.json"}
 		out, err := harnessRun(v.scratch, v.eng, nil, margs)
+		if err != nil && strings.Contains(string(out), "BUDGET-NOT-CONFIRMED") {
+			fmt.Printf("note: a run exhausted its probe budget (%s) but ends when given 20x the budget: slow, not reported\n", v.Sig)
+			delete(seen, key)
+			continue
+		}
 		if err != nil {
 			trouble("minimising %s failed: %v\n%s", v.path, err, tail(out, 4000))
 		}
